@@ -264,7 +264,16 @@ pub const RECOVERY_CALL_BUDGET: i64 = 400_000;
 /// Open `dir` (tracing the recovery) and snapshot the result.  The log is returned so the
 /// caller can continue on it.
 pub fn recover(dir: &Path, policy: Policy, key: u64) -> (Recovered, Option<Sut>, Vec<Ev>) {
-    shim::reset_all();
+    recover_opts(dir, policy, key, true)
+}
+
+/// `wipe = false` keeps the shim's fd/path tables (another log is still open elsewhere).
+pub fn recover_opts(dir: &Path, policy: Policy, key: u64, wipe: bool) -> (Recovered, Option<Sut>, Vec<Ev>) {
+    if wipe {
+        shim::reset_all();
+    } else {
+        shim::reset();
+    }
     shim::set_root(dir);
     shim::budget(RECOVERY_CALL_BUDGET);
     let r = catch_unwind(AssertUnwindSafe(|| Sut::open(dir, policy, key, true)));
